@@ -295,7 +295,18 @@ class Inliner:
             ast.copy_location(repl, target)
             parent, _ = path[-1] if path else (None, None)
             if parent is None:
-                return None
+                # the call is the whole header expression (`for x in helper():`, `with helper():`)
+                done_ = False
+                for field, val in ast.iter_fields(s):
+                    if val is target:
+                        setattr(s, field, repl)
+                        done_ = True
+                    elif isinstance(val, list):
+                        for y in val:
+                            if isinstance(y, ast.withitem) and y.context_expr is target:
+                                y.context_expr = repl
+                                done_ = True
+                return pre + [call_st, s] if done_ else None
             for field, val in ast.iter_fields(parent):
                 if val is target:
                     setattr(parent, field, repl)
